@@ -250,3 +250,48 @@ def run(ctx):
                    'switches the byte order for this and every following field: on a big-endian (RIFX) file the chunk and everything after it (including the data chunk size, and on reading the sample byte order) is handled little-endian'), None)
     ctx.require(neo >= 80, 'only %d binheader calls found in wav.c / wavlike.c' % neo)
 
+
+    ctx.rule('LAYOUT-TABLE', 'chanmap.c: the two look-ups (channel map -> layout tag on writing, tag -> channel map on reading) are inverse on every entry that has a map: for every entry with a map, '
+             'the tag of the first entry holding that map (what the writer stores) is resolved by the reader (first entry with that tag) to the same map; every tag carries n in its low 16 bits '
+             '(the reader selects the table by them), every referenced map has exactly n entries, and map [n] points at the table for n channels with its true length', floor=40)
+    mm = prog.global_('map')
+    ctx.require(mm is not None and mm.get('init'), 'chanmap.c: table `map` not found')
+    n_lt = 0
+    for nch, ent in enumerate(mm['init']):
+        tname = ent[0].get('ref') if isinstance(ent[0], dict) else None
+        tab = prog.global_(tname) if tname else None
+        ctx.require(tab is not None and tab.get('init') is not None, 'chanmap.c: map [%d] does not reference a table' % nch)
+        where = 'src/chanmap.c:%d' % tab['line']
+        n_lt += 1
+        ctx.ob('LAYOUT-TABLE', 'map[%d]:len' % nch, ent[1] == tab['alen'], where, 'map [%d] = { %s, %d }; the table has %d entries' % (nch, tname, ent[1], tab['alen']), None)
+        rows = []
+        for row in tab['init']:
+            mref = row[1]
+            mg = prog.global_(mref['ref']) if isinstance(mref, dict) and mref.get('ref') else None
+            rows.append((row[0], tuple(mg['init']) if mg is not None and mg.get('init') is not None else None, mg['alen'] if mg is not None else None, row[2], mref.get('ref') if isinstance(mref, dict) else None))
+        for tag, km, mlen, nm, mname in rows:
+            n_lt += 1
+            probs = []
+            if (tag & 0xffff) != nch and nch > 0:
+                probs.append('its low 16 bits say %d channels but it sits in the table for %d: the reader looks it up in another table' % (tag & 0xffff, nch))
+            if km is not None:
+                if mlen != nch:
+                    probs.append('its map %s has %d entries, not %d' % (mname, mlen, nch))
+                # the writer stores the tag of the first entry with this map, the reader returns the first entry with that tag
+                wtag = next(t for t, k2, l2, n2, m2 in rows if k2 == km)
+                back = next((k2, n2) for t, k2, l2, n2, m2 in rows if t == wtag)
+                if back[0] != km:
+                    probs.append('a file written with this map gets tag (%d << 16) | %d, which the reader resolves to "%s" - a different map' % (wtag >> 16, wtag & 0xffff, back[1]))
+            else:
+                first = next(n2 for t, k2, l2, n2, m2 in rows if t == tag)
+                if first != nm:
+                    probs.append('the tag is already used by "%s"' % first)
+            ctx.ob('LAYOUT-TABLE', '%s:%s' % (tname, str(nm)[:40]), not probs, where, 'tag (%d << 16) | %d%s' % (tag >> 16, tag & 0xffff, '' if not probs else ': ' + '; '.join(probs)), None)
+    ctx.require(n_lt >= 40, 'only %d layout entries found' % n_lt)
+
+    ctx.rule('RW-ORDER', 'a record that one psf_binheader_writef call serialises field by field (two or more fields of one struct type) is parsed by the container\'s psf_binheader_readf call - into the '
+             'fields directly, or into locals that are then stored into the fields - in the same field order (cue points, bext, cart timers, PEAK positions, CAF desc ...): two equally wide '
+             'fields in exchanged order come back exchanged and nothing else notices', floor=20)
+    from engine.rworder import rw_order
+    n_rw = rw_order(ctx, prog)
+    ctx.require(n_rw >= 20, 'only %d writer / reader field sequences paired' % n_rw)
